@@ -434,10 +434,12 @@ def plan(tier, seed):
     if tier == "quick":
         return [{"kind": "tables", "examples": 50, "seed": seed * 1000 + k} for k in range(13)] + \
                [{"kind": "splitter", "examples": 25, "seed": seed * 1000 + 100 + k} for k in range(4)] + \
-               [{"kind": "big", "atoms": 10400, "chains": 3, "models": 1}]
+               [{"kind": "big", "atoms": 10400, "chains": 3, "models": 1}, {"kind": "big", "atoms": 27000, "chains": 2, "models": 2}]
     return [{"kind": "tables", "examples": 1200, "seed": seed * 1000 + k} for k in range(16)] + \
            [{"kind": "splitter", "examples": 800, "seed": seed * 1000 + 100 + k} for k in range(8)] + \
-           [{"kind": "big", "atoms": n, "chains": c, "models": m} for n, c, m in ((10400, 3, 1), (20001, 2, 1), (10000, 1, 1), (10001, 4, 2), (33000, 5, 1))]
+           [{"kind": "big", "atoms": n, "chains": c, "models": m} for n, c, m in ((10400, 3, 1), (20001, 2, 1), (10000, 1, 1), (10001, 4, 2), (33000, 5, 1),
+                                                                                                  # ensembles whose PDB text runs to 54 000-140 000 lines (serials restart in every model)
+                                                                                                  (27000, 2, 2), (24990, 3, 4), (70000, 4, 2))]
 
 
 def run_shard(spec) -> ShardResult:
@@ -447,7 +449,7 @@ def run_shard(spec) -> ShardResult:
 
         case = {"big": [spec["atoms"], spec["chains"], spec["models"]]}
         check_case(PROP_ID, oracle, case, res)
-        res.note_case(case, True, [f"table-of-{spec['atoms'] // 10000 * 10000}+-atoms-per-model"])
+        res.note_case(case, True, [f"table-of-{spec['atoms'] // 10000 * 10000}+-atoms-per-model"] + ([f"pdb-text-of-{spec['atoms'] * spec['models'] // 10000 * 10000}+-lines-in-{spec['models']}-models"] if spec["models"] > 1 else []))
         res.exhaustive = False
         return res
     if spec["kind"] == "splitter":
